@@ -11,8 +11,13 @@
 //                                                       at an enabled / disabled level; X  a thread calls
 //                                                       stop() and runs up to its join; C  the consumer
 //                                                       thread runs from its park position to the next;
-//                                                       J  stop() joins and returns
-// The schedule is enforced without any hook inside fix8: this executable defines clock_nanosleep, write,
+//                                                       J  stop() joins and returns;  R<p>e  producer p begins
+//                                                       the submit of its next line and is parked inside the
+//                                                       queue's push between taking its ticket and publishing
+//                                                       the element (FIX8_VERIF yield point "push.publish",
+//                                                       hook H1);  P<p>  that producer is released and its
+//                                                       submit returns
+// Apart from R/P the schedule is enforced without any hook inside fix8: this executable defines clock_nanosleep, write,
 // pthread_join and pthread_create; the logger's consumer thread calls the first two (the sleep when the
 // queue is empty, the write of a formatted line), Logger::stop() calls the third.  In sched mode those
 // calls park the calling thread until the controller releases it.  If a thread does not reach a park
@@ -42,6 +47,7 @@ static thread_local int tl_role = r_other;
 
 struct Ctl
 {
+	bool ppark[9] = {}, pparked[9] = {}, prelease[9] = {};   // producer p: asked to park in push / is parked / released
 	std::mutex m;
 	std::condition_variable cv;
 	bool active = false;        // sched mode: park positions are in force
@@ -64,6 +70,25 @@ static void park_consumer(const char *where)
 	g.crelease = false;
 	g.cparked = false;
 }
+
+static thread_local int tl_prod = 0;     // producer number of this thread while it runs an R step
+#ifdef FIX8_VERIF
+static void yield_hook(const char *label, long)
+{
+	const int p = tl_prod;
+	if (!p || strcmp(label, "push.publish"))
+		return;
+	std::unique_lock<std::mutex> lk(g.m);
+	if (!g.active || !g.ppark[p])
+		return;
+	g.ppark[p] = false;
+	g.pparked[p] = true;
+	g.cv.notify_all();
+	g.cv.wait(lk, [p] { return g.prelease[p] || !g.active; });
+	g.prelease[p] = false;
+	g.pparked[p] = false;
+}
+#endif
 
 extern "C" int clock_nanosleep(clockid_t clk, int flags, const struct timespec *req, struct timespec *rem)
 {
@@ -386,15 +411,18 @@ static void run_sched(const std::string& dir, const std::vector<std::string>& t)
 	{
 		if (i > 3) sj += ",";
 		const std::string& s = t[i];
-		if (s[0] == 'S')
-			sj += "{\"a\":\"S\",\"p\":" + std::to_string(atoi(s.c_str() + 1)) + ",\"en\":" + (s.back() == 'e' ? "1" : "0") + "}";
+		if (s[0] == 'S' || s[0] == 'R')
+			sj += std::string("{\"a\":\"") + s[0] + "\",\"p\":" + std::to_string(atoi(s.c_str() + 1)) + ",\"en\":" + (s.back() == 'e' ? "1" : "0") + "}";
+		else if (s[0] == 'P')
+			sj += "{\"a\":\"P\",\"p\":" + std::to_string(atoi(s.c_str() + 1)) + ",\"en\":0}";
 		else
 			sj += std::string("{\"a\":\"") + s[0] + "\",\"p\":0,\"en\":0}";
 	}
 	sj += "]";
 	pj::Ev("Reset").s("mode", "sched").i("id", id).i("np", np).i("nl", 0).i("stopafter", 0).raw("sched", sj).emit();
 	g_tick = 0; g_done = 0;
-	{ std::lock_guard<std::mutex> lk(g.m); g.active = true; }
+	{ std::lock_guard<std::mutex> lk(g.m); g.active = true;
+	  for (int p = 0; p < 9; ++p) g.ppark[p] = g.pparked[p] = g.prelease[p] = false; }
 	g_cur_path = path;
 	FileLogger *lg = make_logger(path);
 	std::vector<std::string> parks;
@@ -409,6 +437,16 @@ static void run_sched(const std::string& dir, const std::vector<std::string>& t)
 	}
 	std::vector<int> nextk(np + 1, 0);
 	std::vector<Sub> subs;
+	std::mutex subs_m;
+	std::vector<bool> inpush(np + 1, false);
+	auto publish = [&](int p) {
+		if (!inpush[p])
+			return;
+		{ std::lock_guard<std::mutex> lk(g.m); g.prelease[p] = true; g.ppark[p] = false; g.cv.notify_all(); }
+		g_prod[p]->wait();
+		{ std::lock_guard<std::mutex> lk(g.m); g.prelease[p] = false; }
+		inpush[p] = false;
+	};
 	long st0 = -1, st1 = -1;
 	bool started = false, joined = false;
 	auto start_stop = [&]() {
@@ -441,8 +479,23 @@ static void run_sched(const std::string& dir, const std::vector<std::string>& t)
 			const int p = atoi(s.c_str() + 1);
 			const bool en = s.back() == 'e';
 			const int k = ++nextk[p];
-			g_prod[p]->run([&, p, k, en]() { subs.push_back(do_submit(lg, p, k, en)); });
+			publish(p);
+			g_prod[p]->run([&, p, k, en]() { Sub x = do_submit(lg, p, k, en); std::lock_guard<std::mutex> lk(subs_m); subs.push_back(x); });
 		}
+		else if (s[0] == 'R')
+		{
+			const int p = atoi(s.c_str() + 1);
+			publish(p);
+			const int k = ++nextk[p];
+			{ std::lock_guard<std::mutex> lk(g.m); g.ppark[p] = true; }
+			inpush[p] = true;
+			g_prod[p]->start([&, p, k]() { tl_prod = p; Sub x = do_submit(lg, p, k, true); tl_prod = 0;
+				std::lock_guard<std::mutex> lk(subs_m); subs.push_back(x); });
+			std::unique_lock<std::mutex> lk(g.m);
+			wait_for(lk, 3000, [p] { return g.pparked[p]; });
+		}
+		else if (s[0] == 'P')
+			publish(atoi(s.c_str() + 1));
 		else if (s[0] == 'X')
 		{
 			if (!started)
@@ -467,12 +520,14 @@ static void run_sched(const std::string& dir, const std::vector<std::string>& t)
 	}
 	if (!started)
 	{
+		for (int p = 1; p <= np; ++p) publish(p);
 		// schedules that end before stop(): finish with a stop() whose run is not steered
 		{ std::lock_guard<std::mutex> lk(g.m); g.active = false; g.crelease = true; g.cv.notify_all(); }
 		start_stop();
 	}
 	if (!joined)
 		finish_stop();
+	for (int p = 1; p <= np; ++p) publish(p);
 	std::string pjs("[");
 	for (size_t i = 1; i < parks.size(); ++i) { if (i > 1) pjs += ","; pjs += "\"" + parks[i] + "\""; }
 	pjs += "]";
@@ -495,6 +550,9 @@ int main(int argc, char **argv)
 	for (int p = 1; p <= 8; ++p)
 		g_prod.push_back(new Worker(r_other));
 	g_stopper = new Worker(r_stopper);
+#ifdef FIX8_VERIF
+	fix8_verif_yield_hook = yield_hook;
+#endif
 	std::thread(watchdog).detach();
 	std::string dir(".");
 	std::string line;
